@@ -71,6 +71,23 @@ class Check:
     def min_count(self, tier):
         return 3 if tier == 'quick' else 10
 
+    # a program that has to be rejected is rejected whatever outputs were asked for: every n-th such case of a check that names
+    # its rejecting cases (no_image_reject = function case -> bool) also runs with -n (no image), where nothing but the
+    # verdict is left to observe
+    no_image_reject = None
+    no_image_every = 3
+
+    def all_cases(self, tier, seed):
+        k = 0
+        for c in self.cases(tier, seed):
+            if self.no_image_reject is not None and len(c['runs']) == 1 and self.no_image_reject(c):
+                k += 1
+                argv = c['runs'][0].get('argv') or []
+                if k % self.no_image_every == 0 and argv[:1] == ['compile'] and '-n' not in argv:
+                    c['runs'][0]['argv'] = argv + ['-n']
+                    c['tags'] = sorted(set(c.get('tags') or []) | {'rejecting-program-without-image-output'})
+            yield c
+
     def cases(self, tier, seed):
         """Yield cases: {'runs': [spec, ...], 'meta': {...}, 'tags': [...]}."""
         raise NotImplementedError
@@ -290,7 +307,7 @@ def run_check(check, tier, seed, replay=None):
             batch = []
             batch_runs = 0
 
-        for c in check.cases(tier, seed):
+        for c in check.all_cases(tier, seed):
             batch.append(c)
             batch_runs += len(c['runs'])
             if batch_runs >= check.chunk:
